@@ -192,6 +192,16 @@ let handle (line : Stdlib.String.t) : Stdlib.String.t =
          let b = Buffer.create 256 in dump_value b (canon (embed e));
          (if text = [] then "-" else cps text) ^ " | " ^ Buffer.contents b
        with Failure m -> "BAD-REQUEST " ^ m)
+  | "PRINT" :: mb :: entry :: pd :: qd :: rest ->
+      (* parse with dialect pd, print every resulting node with dialect qd *)
+      (try
+         (match parse_text (mb = "1") (coq_of_string entry) (dialect_of pd) (ints_of rest) with
+          | Err e -> "PARSEERR " ^ err_name e
+          | Ok v ->
+              let nodes = (match v with VList l -> l | x -> [x]) in
+              "OK " ^ Stdlib.String.concat "|" (List.map (fun n ->
+                 match print (dialect_of qd) n with Ok s -> if s = [] then "-" else cps s | Err e -> "ERR:" ^ err_name e) nodes))
+       with Failure m -> "BAD-REQUEST " ^ m)
   | "CURSOR" :: rest ->
       (try
          let (toks, rest1) = parse_toks rest in
